@@ -122,6 +122,10 @@ def opOfJson (j : Json) : Option Op :=
   | "symmetricDifference" => some (.symmetricDifference (valsJ j "vs"))
   | "add" => some (.add (valsJ j "vs")) | "remove" => some (.remove (valsJ j "vs"))
   | "setCmp" => some (.setCmp (jnat j "n") (valsJ j "vs"))
+  | "zipRoot" => some (.zipRoot ((jarr j "ns").map asInt))
+  | "joinRoot" => some (.joinRoot (lam2OfJson (jget j "f2")) (lam2OfJson (jget j "g2")))
+  | "concatRoot" => some (.concatRoot n)
+  | "partialThenFull" => some (.partialThenFull n)
   | "unpack" => some (.unpack ((jarr j "names").map chars) (jnat j "n"))
   | _ => none
 
@@ -130,7 +134,8 @@ def runCase (c : Json) : Json :=
   let ops := (jarr c "ops").map opOfJson
   if ops.any Option.isNone then jerr "bad-op"
   else
-    match runPipe (ops.filterMap id) data with
+    let binder := if jhas c "let" && !jisNull (jget c "let") then opOfJson (jget c "let") else none
+    match runPipeLet binder (ops.filterMap id) data with
     | .ok v => jo [("ok", valToJson v)]
     | .error e => jo [("err", js (errName e))]
 
